@@ -222,7 +222,9 @@ def arr_semilocal_exponent(case, ctx):
         fac = [1, 2, 4]
         lab = "gga"
     for k in range(len(fac)):
-        ctx.close(e2[k], fac[k] * np.asarray(e1[k]), ("exponent", lab, "out%d" % k), rtol=1e-12,
+        # the derivatives are differences of terms of the size of a / rho (up to ten times the result where the density
+        # and the gradient / tau parts cancel; 7e-13 measured): 1e-11 for them, 1e-12 for the value
+        ctx.close(e2[k], fac[k] * np.asarray(e1[k]), ("exponent", lab, "out%d" % k), rtol=1e-12 if k == 0 else 1e-11,
                   scale=float(np.max(np.abs(e1[k])) * fac[k] + 1e-300))
 
 
